@@ -6,10 +6,10 @@
    functions of the same name in python/tskit/combinatorics.py (tree_unrank = Tree.unrank,
    tree_rank = Tree.rank).  [combs], [cwr_list], [asc_compositions], [spec_trees],
    [reorderings], [binom], [mchoose] are specifications (C15/Combination.v, TopoSpec.v). *)
-From Coq Require Import List ZArith Permutation.
+From Coq Require Import List ZArith Permutation Sorted.
 From TskVerif Require Import Base.Common C15.Combination C15.Partitions C15.RankTree
   C15.TopoSpec C15.CombProofs C15.CombRankProofs C15.WRProofs C15.RankTreeBounded
-  C15.PartitionProofs C15.OorProofs C15.ChildOrderProofs C15.LabelOorProofs C15.RuleAscProofs C15.NumShapesTotal C15.ShapeRankProofs C15.ShapeDenseProofs C15.LabelRankProofs C15.LabelTreeProofs C15.LabelDenseProofs.
+  C15.PartitionProofs C15.OorProofs C15.ChildOrderProofs C15.LabelOorProofs C15.RuleAscProofs C15.NumShapesTotal C15.ShapeRankProofs C15.ShapeDenseProofs C15.LabelRankProofs C15.LabelTreeProofs C15.LabelDenseProofs C15.CountTopo C15.CountTopoProofs.
 Import ListNotations.
 Open Scope Z_scope.
 
@@ -323,3 +323,15 @@ Theorem unrank_then_rank_partial : forall n s l p,
      exists t', from_plain (to_plain t) = Ok t' /\ lt_srk t' = lt_srk t /\ lt_lrk t' = lt_lrk t) ->
   tree_rank p = Ok (s, l).
 Proof. exact LabelDenseProofs.unrank_then_rank_partial. Qed.
+
+(* ---- count_topologies: the result is indexed by UNORDERED combinations of sample sets ----
+   TopologyCounter.__getitem__ canonicalises its key (_to_key: sorted tuple): the model key is a
+   function of the multiset of indexes, so every permutation of a key reads the same counter;
+   the canonical form is sorted and has the same members. *)
+Theorem count_key_order_invariant : forall tc k k',
+  Permutation k k' -> tc_getitem tc k = tc_getitem tc k'.
+Proof. exact tc_getitem_perm. Qed.
+
+Theorem count_key_canonical : forall k,
+  StronglySorted Z.le (to_key k) /\ Permutation (to_key k) k /\ to_key (to_key k) = to_key k.
+Proof. intros k. split; [apply to_key_sorted | split; [apply to_key_members | apply to_key_idem]]. Qed.
